@@ -51,7 +51,11 @@ class InitMethod(MethodDescriptor):
             )
             for parent in reversed(spec_cls.mro()[1:]):
                 parent_metadata = getattr(parent, "__spec_class__", None)
-                if parent_metadata:
+                # Only classes that are spec classes in their own right: an
+                # undecorated class between two spec classes merely inherits
+                # its parent's metadata (and constructor), which has already
+                # been called for the parent itself.
+                if parent_metadata and parent_metadata.owner is parent:
                     parent_kwargs = {}
                     for attr in parent_metadata.attrs:
                         instance_attr_spec = instance_metadata.attrs[attr]
